@@ -341,7 +341,8 @@ impl ScopedBitRead for Bits<'_> {
 
     #[inline]
     fn remaining(&self) -> usize {
-        self.len - self.pos
+        // set_len() may have moved the length below the current position
+        self.len.saturating_sub(self.pos)
     }
 }
 
